@@ -38,6 +38,10 @@ SYMS = {
     "sighelp": (1, 2, "textDocument/signatureHelp", {"textDocument": {"uri": "file:///a.spl"}, "position": {"line": 0, "character": 13}}),
     "goto": (1, 2, "textDocument/definition", {"textDocument": {"uri": "file:///a.spl"}, "position": {"line": 0, "character": 6}}),
 }
+BIG_TEXT = "".join("// procedure %d\nproc p%d(a: int, ref b: int) {\n  var i: int;\n  i := a * %d + b;\n  while (i < 10) { i := i + 1; }\n  b := i;\n}\n\n" % (k, k, k)
+                   for k in range(250)) + "proc main() { }\n"
+# the same document kind of notification as `docnote`, with a text of ~25 kB: handlers take tens of milliseconds on it
+SYMS["bigdoc"] = (0, 5, "textDocument/didOpen", {"textDocument": {"uri": "file:///a.spl", "languageId": "spl", "version": 1, "text": BIG_TEXT}})
 REQUEST_KINDS = ["supported", "fold", "format", "semtok", "complete", "refs", "rename", "sighelp", "goto", "unknownreq"]
 BASE = ["initialize", "initialized", "supported", "unknownreq", "docnote", "unknownnote", "shutdown", "exit"]
 CODES = {-32002: 1, -32600: 2, -32601: 3}
@@ -70,7 +74,8 @@ def command(session, clean=True, upto=None):
     return "3 %d " % (1 if clean else 0) + " ".join("%d %d" % SYMS[s][:2] for s in syms)
 
 
-def observe(exe, data, timeout=6.0, idmap=None):
+def observe(exe, data, timeout=None, idmap=None):
+    timeout = max(timeout or 6.0, 90.0 if len(data) > 20000 else 0.0)
     """feeds `data` then end-of-input; returns (encoding list or None on hang, seconds to exit); with `idmap` the response ids
     are translated back to message positions (an id the client never used stays as it is)"""
     back = {v: k for k, v in idmap.items()} if idmap else None
@@ -197,6 +202,11 @@ def gen(ctx):
             body.insert(ctx.rng.randrange(len(body)), "format")
         sess = ["initialize", "initialized", "docnote"] + body + (["shutdown", "exit"] if ctx.rng.random() < 0.7 else [])
         cases.append(("request-kinds", sess, b"".join(frames(sess)), command(sess)))
+    for _ in range(40 if ctx.thorough() else 8):
+        body = [ctx.rng.choice(REQUEST_KINDS) for _ in range(ctx.rng.randint(4, 10))]
+        body.insert(ctx.rng.randrange(len(body) - 1), "format")
+        sess = ["initialize", "initialized", "bigdoc"] + body + ["shutdown", "exit"]
+        cases.append(("request-kinds-big-document", sess, b"".join(frames(sess)), command(sess)))
     # the same kind of sessions with request ids from all over the i32 range (negative, zero, extremes)
     for _ in range(200 if ctx.thorough() else 40):
         body = [ctx.rng.choice(BASE) for _ in range(ctx.rng.randint(1, 6))]
